@@ -70,5 +70,23 @@ let run_case (toks : string list) : string option =
     let blocked = match results with (b, _) :: _ -> b | [] -> "-" in
     let alts = List.sort_uniq compare (List.map snd results) in
     Some (Printf.sprintf "blocked=%s alts=%s" (if nthreads = 0 then "-" else blocked) (String.concat "!" alts))
+  | ["c20park"; _ms; _mf; k; n; _rounds] ->
+    (* k whole rounds, a reader acquires the lock and parks before its clone, the handler tries to start the next
+       round (blocked in the model: the state does not change), the reader clones and releases, the remaining rounds *)
+    let k = int_of_string k and n = int_of_string n in
+    let m = fun _ -> nat_of_int 1 in
+    let sys = ref (tinit (nat_of_int 1) (nat_of_int 0)) in
+    let stepm t = sys := tstep (nat_of_int n) m !sys t in
+    let whole_round () = stepm TH; stepm TH; stepm TH in
+    for _ = 1 to k do whole_round () done;
+    stepm (TR (nat_of_int 0));
+    let before = hd !sys in
+    stepm TH; stepm TH;
+    let blocked = (hd !sys = before) in
+    stepm (TR (nat_of_int 0)); stepm (TR (nat_of_int 0));
+    for _ = k + 1 to n do whole_round () done;
+    let reader = (match obs !sys with ((_, b), r) :: _ -> Printf.sprintf "%d-%d" (int_of_nat b) (int_of_nat r) | [] -> "-") in
+    let fin = (match hd !sys with HIdle r -> Printf.sprintf "%d-%d" (int_of_nat (base !sys)) (int_of_nat r) | _ -> "mid") in
+    Some (Printf.sprintf "blocked=%s reader=%s final=%s" (if blocked then "1" else "0") reader fin)
   | "c20stress" :: _ -> Some "bad=0"
   | _ -> None
